@@ -46,7 +46,7 @@ def main():
         man = json.load(open(os.path.join(VERIF, "MANIFEST.json")))
         for chk in man["checks"]:
             pid = chk["property_id"]
-            rc, out = run([os.path.join(VERIF, "bin", "ikelint"), "-repo", wt, "-prop", pid, "-no-evidence", "-known", os.path.join(VERIF, "known_findings.json")], VERIF)
+            rc, out = run([os.environ.get("IKELINT_BIN", os.path.join(VERIF, "bin", "ikelint")), "-repo", wt, "-prop", pid, "-no-evidence", "-known", os.path.join(VERIF, "known_findings.json")], VERIF)
             if rc != 0:
                 lines = [l.strip() for l in out.splitlines() if l.strip().startswith(("VIOLATED", "UNDECIDED", "key:", "CANNOT"))]
                 # keep the detail line following each key line
